@@ -142,6 +142,13 @@ def c20_rf6(run):
 
 def c20_rf21(run):
     rf_mir2c.rf21(run)
+    rf_mir2c.rf57(run)
+    run.min_instances('RF57', 13)
+    rf_mir2c.rf58(run)
+    rf_mir2c.rf59(run)
+    run.min_instances('RF59', 19)
+    rf_mir2c.rf60(run)
+    run.min_instances('RF60', 2)
     run.min_instances('RF21', 8)
     rf_vocab.rf37(run, 'mir2c', ('MIR_module2c',))
     run.min_instances('RF37', 3)
